@@ -8,6 +8,7 @@ from ..r_canon import rule_bare_string_for_reaction as _rule_bare
 from ..r_construct import rule_protocol_dunders as _rule_dunders
 from ..r_reaction import rule_hash_covers_eq as _rule_hash_eq, rule_fragment_counter as _rule_fragcount
 from ..r_round9 import rule_positional_radical_list as _r9_rad
+from ..r_round10 import rule_fragment_index_bound as _r10_fr
 
 LEVEL = 'other'
 
@@ -27,3 +28,4 @@ def run(ck, repo):
                                                      'chython.containers.bonds:QueryBond'])
     _rule_dunders(ck, repo, 'C15.D0-container-protocols', ['chython.containers.cgr:CGRContainer', 'chython.containers.molecule:MoleculeContainer', 'chython.containers.reaction:ReactionContainer'])
     _r9_rad(ck, repo, 'C15.D6-positional-radical-list')
+    _r10_fr(ck, repo, 'C15.D7-fragment-index-bound')
